@@ -7,7 +7,7 @@
    functions the executable trace model (Model.v) runs against the real code on every check. *)
 From Coq Require Import List ZArith Bool Lia.
 From BLB Require Import Gen.Consts C05.GC C05.Proto.
-From BLB Require Cluster.Model Cluster.Sched C05.Model C05.Strict C05.Lift C05.Witness.
+From BLB Require Cluster.Model Cluster.Sched C05.Model C05.Strict C05.Lift C05.LiftDel C05.Witness.
 Import ListNotations.
 Open Scope Z_scope.
 
@@ -201,41 +201,65 @@ Proof. vm_compute. repeat split; reflexivity. Qed.
 
 (* ================================================================== over the executable trace model *)
 (* The statements below are about C05.Model (the model that is compared with the real code on every run):
-   state = Cluster model state + soup of instructions; run = Lift.xrun from C05.Model.init_x.  Schedules are
-   those accepted by Lift.ok5_run: every Cluster event accepted by Cluster.Sched.ok_ev at ladder level 4
-   (lost, duplicated and failed requests, delayed replies, restarts, leader changes, re-replication, fixVersion;
-   carved out there: a superseded PullTract taking effect = the F21 trigger, a crash inside PullTract, injected
-   probes), tract reports (event 40) and deliveries of any instruction of the soup at any later time, any number
-   of times, with or without disk fault (event 41); plus two side conditions of C05: a new blob does not take an
-   id that an instruction already declared gone, and a gone-instruction does not execute while a client write on
-   that same non-existent blob is in progress.  Delete / undelete / metadata GC (42-45) and the RS events (46-51)
-   are NOT in this alphabet: for them the Proto theorems above remain the only ones.
-   Lift.removed x i f is the list of copies the delivery of instruction i removes at its server in state x
-   (Lift.deliver_is_removed: C05.Model.step_deliver removes exactly these). *)
+   state = Cluster model state + soup of instructions + blobs marked deleted; run = Lift.xrun from C05.Model.init_x.
+   Schedules are those accepted by LiftDel.ok6_run:
+     - every Cluster event accepted by Cluster.Sched.ok_ev at ladder level 4 (lost, duplicated and failed requests,
+       delayed replies, restarts, leader changes, re-replication, fixVersion; carved out there: a superseded PullTract
+       taking effect = the F21 trigger, a crash inside PullTract, injected probes), admitted WHILE NO BLOB IS HIDDEN
+       (none marked deleted, none finally deleted so far);
+     - tract reports (event 40) and deliveries of any instruction of the soup at any later time, any number of times,
+       with or without disk fault (event 41), admitted at all times;
+     - DeleteBlob (42), UndeleteBlob (43), the scan of the metadata-GC loop (44) and the application of
+       FinishDeleteBefore with its cutoff re-check (45, the F18 repair), admitted at all times;
+     - two side conditions of C05: a new blob does not take an id that an instruction already declared gone, and a
+       gone-instruction does not execute while a client write on that same non-existent blob is in progress.
+   The RS events (46-51) are not in this alphabet: for them the Proto theorems above remain the only ones.
+   LiftDel.vis_blob / vis_tract are the records as CheckForGarbage reads them (GetBlobAll view: blobs merely marked
+   deleted included, finally deleted ones not).  Lift.removed x i f is the list of copies the delivery of instruction
+   i removes at its server in state x (Lift.deliver_is_removed). *)
 
-(* [PARTIAL] c05_gc_safe_replicated over the trace model for the schedules just described: a delivery that deletes a regular copy at the instruction's server finds the blob absent from the durable state or the tract inside the acknowledged length with that server not among its hosts at any version. Partial because delete undelete final delete and RS events are outside the schedule predicate and because of the carve outs of Sched.ok_ev *)
+(* [PARTIAL] c05_gc_safe_replicated over the trace model for the schedules just described including delete undelete and final deletion: a delivery that deletes a regular copy at the instruction's server finds the blob absent from the durable state marked deleted blobs counting as present or the tract inside the acknowledged length with that server not among its hosts at any version. Partial because Cluster events are admitted only while no blob is hidden because RS events are outside the predicate and because of the carve outs of Sched.ok_ev *)
 Theorem c05_gc_safe_replicated_cluster : forall evs,
-  Lift.ok5_run C05.Model.init_x evs = true ->
+  LiftDel.ok6_run C05.Model.init_x evs = true ->
   let x := Lift.xrun C05.Model.init_x evs in
   forall i f t, In i (C05.Model.x_soup x) -> In t (Lift.removed x i f) -> is_rs t = false ->
-  match Cluster.Model.zget (Cluster.Model.s_blobs (C05.Model.x_cl x)) (fst t) with
+  match LiftDel.vis_blob x (fst t) with
   | None => True
-  | Some (_, nt) => snd t < nt /\
-      forall dv hs, Cluster.Model.tget (Cluster.Model.s_dtr (C05.Model.x_cl x)) t = Some (dv, hs) -> ~ In (C05.Model.i_ts i) hs
+  | Some nt => snd t < nt /\ forall dv hs, LiftDel.vis_tract x t = Some (dv, hs) -> ~ In (C05.Model.i_ts i) hs
   end.
-Proof. exact Lift.safe_replicated_cluster. Qed.
+Proof. exact LiftDel.safe_replicated_cluster6. Qed.
 Print Assumptions c05_gc_safe_replicated_cluster.
 
-(* [PARTIAL] c05_gc_keeps_uncommitted_repair over the trace model for the same schedules: a copy ahead of the durable version of its tract is never deleted by any delivery *)
+(* [PARTIAL] c05_gc_keeps_uncommitted_repair over the trace model for the same schedules: a copy ahead of the durable version of its tract is never deleted by any delivery also while the blob is marked deleted *)
 Theorem c05_gc_keeps_uncommitted_repair_cluster : forall evs,
-  Lift.ok5_run C05.Model.init_x evs = true ->
+  LiftDel.ok6_run C05.Model.init_x evs = true ->
   let x := Lift.xrun C05.Model.init_x evs in
   forall i f t dv hs r, In i (C05.Model.x_soup x) -> is_rs t = false ->
-  Cluster.Model.tget (Cluster.Model.s_dtr (C05.Model.x_cl x)) t = Some (dv, hs) ->
+  LiftDel.vis_tract x t = Some (dv, hs) ->
   Cluster.Model.rget (Cluster.Model.s_reps (C05.Model.x_cl x)) (C05.Model.i_ts i, t) = Some r -> dv < Cluster.Model.r_ver r ->
   ~ In t (Lift.removed x i f).
-Proof. exact Lift.keeps_uncommitted_repair_cluster. Qed.
+Proof. exact LiftDel.keeps_uncommitted_repair_cluster6. Qed.
 Print Assumptions c05_gc_keeps_uncommitted_repair_cluster.
+
+(* [PARTIAL] c05_undelete_intact over the trace model: a blob that exists is deleted then any admitted events follow that is reports deliveries of instructions computed at any time deletes and undeletes of other blobs scans and final deletions and then an acknowledged undelete of the blob: the blob record every tract record and every copy at a durable host of its tracts are exactly what they were before the delete. Partial only through the schedule predicate *)
+Theorem c05_undelete_intact_cluster : forall evs1 evs2 b repl nt,
+  LiftDel.ok6_run C05.Model.init_x (evs1 ++ [42; b] :: evs2 ++ [[43; b]]) = true ->
+  (forall ev, In ev evs2 -> ev <> [43; b]) -> (b =? -2) = false ->
+  let x0 := Lift.xrun C05.Model.init_x evs1 in
+  Cluster.Model.zget (Cluster.Model.s_blobs (C05.Model.x_cl x0)) b = Some (repl, nt) ->
+  let x2 := Lift.xrun (fst (C05.Model.step x0 [42; b])) evs2 in
+  snd (C05.Model.step x2 [43; b]) = [c05_NoError] ->
+  let x3 := fst (C05.Model.step x2 [43; b]) in
+  Cluster.Model.zget (Cluster.Model.s_blobs (C05.Model.x_cl x3)) b = Some (repl, nt) /\
+  (forall t, fst t = b -> Cluster.Model.tget (Cluster.Model.s_dtr (C05.Model.x_cl x3)) t = Cluster.Model.tget (Cluster.Model.s_dtr (C05.Model.x_cl x0)) t) /\
+  (forall t dv hs s, fst t = b -> Cluster.Model.tget (Cluster.Model.s_dtr (C05.Model.x_cl x0)) t = Some (dv, hs) -> In s hs ->
+     Cluster.Model.rget (Cluster.Model.s_reps (C05.Model.x_cl x3)) (s, t) = Cluster.Model.rget (Cluster.Model.s_reps (C05.Model.x_cl x0)) (s, t)).
+Proof. exact LiftDel.undelete_intact_cluster. Qed.
+Print Assumptions c05_undelete_intact_cluster.
+
+(* every schedule of the earlier predicate Lift.ok5_run is a schedule of LiftDel.ok6_run *)
+Lemma c05_ok5_is_ok6 : forall evs, Lift.ok5_run C05.Model.init_x evs = true -> LiftDel.ok6_run C05.Model.init_x evs = true.
+Proof. intros evs H. apply LiftDel.ok5_ok6_run; [reflexivity | exact H]. Qed.
 
 (* [FULL] over the Cluster model for every event sequence without any schedule restriction: a durable tract record never disappears its version never decreases and the host set of a given durable version never changes and no blob comes into being except by the blob creation event *)
 Theorem c05_hosts_change_only_with_version : forall st ev,
@@ -265,3 +289,12 @@ Example c05_lift_nonvacuous :
   Lift.ok5_run C05.Model.init_x C05.Witness.readd_trace = true /\
   length (C05.Model.x_soup (Lift.xrun C05.Model.init_x C05.Witness.readd_trace)) = 2%nat.
 Proof. vm_compute. split; reflexivity. Qed.
+
+(* non-vacuity with delete and undelete: the trace of the harness case d-undelete recorded on the real code (53 events: two blobs written, DeleteBlob, a report from every server, the scan of the real metadata-GC loop, UndeleteBlob inside its pause, FinishDeleteBefore applied, reports, a client read of the blob, final sweep) is accepted by ok6_run and the blob is neither marked deleted nor finally deleted at the end *)
+Example c05_lift_delete_nonvacuous :
+  LiftDel.ok6_run C05.Model.init_x C05.Witness.undelete_trace = true /\
+  C05.Model.x_del (Lift.xrun C05.Model.init_x C05.Witness.undelete_trace) = [] /\
+  C05.Model.x_dead (Lift.xrun C05.Model.init_x C05.Witness.undelete_trace) = [] /\
+  existsb (fun ev => hd 0 ev =? 42) C05.Witness.undelete_trace && existsb (fun ev => hd 0 ev =? 43) C05.Witness.undelete_trace &&
+  existsb (fun ev => hd 0 ev =? 45) C05.Witness.undelete_trace && existsb (fun ev => hd 0 ev =? 4) C05.Witness.undelete_trace = true.
+Proof. vm_compute. repeat split; reflexivity. Qed.
